@@ -43,6 +43,18 @@ def bad_lines(ctx, frag_lines, n):
             else:
                 tb = rng.choice([b's:x', b's:x*1*2', b's:x*zz', b'*00', b'', b'c:\xff*00', b'g:1-2*00', b's:x*'])
                 out.append(b'\\' + tb + b'\\' + good)                                     # malformed tag block in front
+        elif r < 0.75:
+            # numbers that are individually acceptable but do not fit together, or are huge
+            seq, chan = rng.choice(['', '1', '3', '9']), rng.choice(['A', 'B', '1'])
+            cnt, num = rng.choice([(2, 3), (1, 9), (1, 2), (2, 100), (100, 100), (100, 1), (3, 99), (9, 10), (5, 77)])
+            body = f'AIVDM,{cnt},{num},{seq},{chan},15M67FC000G?ufbE`FepT@3n00Sa,0'.encode()
+            out.append(b'!' + body + b'*' + format(nc.xor(body), '02X').encode())
+        elif r < 0.85:
+            big = rng.choice(['2147483648', '4294967296', str(10 ** 19), str(10 ** 30), '-2147483649'])
+            f = ['PGHP', '1', '2020', '12', '31', '23', '59', '58', '239', '0', '0', '0', '1', '2C']
+            f[rng.choice([2, 3, 4, 5, 6, 7, 8, 12])] = big
+            body = ','.join(f).encode()
+            out.append(b'$' + body + b'*' + format(nc.xor(body), '02X').encode())
         else:
             out.append(rng.choice(pool))
     return out
